@@ -328,4 +328,59 @@ theorem idxOf_map_inj {γ δ : Type} [BEq γ] [LawfulBEq γ] [BEq δ] [LawfulBEq
       have e2 : (f b == f a) = false := by simpa using h'
       simp [List.idxOf_cons, e1, e2, ih]
 
+/-! ### boolean-mask selection, the overlap test, the span of a validated annotation -/
+
+theorem maskSelect_map (xs : List α) (p : α → Bool) : maskSelect xs (xs.map p) = .ok (xs.filter p) := by
+  have h : ∀ xs : List α, ((xs.zip (xs.map p)).filter (·.2)).map (·.1) = xs.filter p := by
+    intro xs
+    induction xs with
+    | nil => rfl
+    | cons x r ih => by_cases hx : p x = true <;> simp [List.filter_cons, hx, ih]
+  simp [maskSelect, h]
+
+theorem overlap_test (ref : Ivals) :
+    (decide (len ref > 1) && anyB (List.zipWith (fun a b => decide (a > b)) (col1 (sliceTo ref (-1)))
+        (col0 (sliceFrom ref 1)))) = overlaps ref := by
+  rw [sliceFrom_one, sliceTo_neg_one]
+  have h : ∀ ref : Ivals, anyB (List.zipWith (fun a b => decide (a > b)) (col1 ref.dropLast) (col0 ref.tail))
+      = overlaps ref := by
+    intro ref
+    induction ref with
+    | nil => rfl
+    | cons a r ih =>
+      cases r with
+      | nil => rfl
+      | cons b r' =>
+        simp only [List.tail_cons, anyB, col0, col1] at ih ⊢
+        rw [List.dropLast_cons₂, List.map_cons, List.map_cons, List.zipWith_cons_cons, List.any_cons, ih, overlaps]
+        simp
+  rw [h]
+  rcases ref with _ | ⟨a, _ | ⟨b, r⟩⟩ <;> simp [len, overlaps]
+
+theorem validate_pos {iv : Ivals} (h : validateIntervals iv = .ok ()) : ∀ x ∈ iv, x.1 < x.2 := by
+  intro x hx
+  unfold validateIntervals at h
+  split at h
+  · cases h
+  · split at h
+    · cases h
+    · rename_i _ h2
+      by_contra hc
+      exact h2 (List.any_eq_true.2 ⟨x, hx, by simpa using not_lt.1 hc⟩)
+
+theorem span_pos {ref : Ivals} (hv : ∀ x ∈ ref, x.1 < x.2) (ho : overlaps ref = false) {a z : Rat × Rat}
+    (ha : ref.head? = some a) (hz : ref.getLast? = some z) : a.1 < z.2 := by
+  induction ref generalizing a with
+  | nil => cases ha
+  | cons x r ih =>
+    cases ha
+    cases r with
+    | nil => simp at hz; subst hz; exact hv _ (List.mem_cons_self ..)
+    | cons b r' =>
+      simp only [overlaps, Bool.or_eq_false_iff, decide_eq_false_iff_not, not_lt] at ho
+      have hz' : (b :: r').getLast? = some z := by simpa [List.getLast?_cons_cons] using hz
+      have := ih (fun y hy => hv y (List.mem_cons_of_mem _ hy)) ho.2 rfl hz'
+      have hx := hv x (List.mem_cons_self ..)
+      linarith [ho.1]
+
 end Mir.PyI
